@@ -60,12 +60,18 @@ func runC07(c *core.Ctx) *core.Outcome {
 	var a *app.App
 	exs := examples.All()
 	deep := 0
+	var scripted [][]byte
 	if t.Chance(1, 80) {
 		// a session that keeps descending: resumed at every depth up to the limit the library enforces
 		a = deepApp(t)
 		deep = []int{127, 126, 100, 60}[t.Weighted(3, 2, 1, 1)]
 		cfg.OutputSize = 0
 		o.Probes["deep_run"]++
+	} else if t.Chance(1, 60) {
+		// one symbol in two roles, visited in both orders
+		a = twoRolesApp(t)
+		scripted = [][]byte{[]byte("1"), []byte("0"), []byte("2"), []byte("0"), []byte("1"), []byte("11"), []byte("0"), []byte("2")}
+		o.Probes["two_roles_run"]++
 	} else if len(exs) > 0 && t.Chance(1, 6) {
 		// one of the repository's example applications (assembled with the real assembler)
 		ex := exs[t.Int(len(exs))]
@@ -75,7 +81,7 @@ func runC07(c *core.Ctx) *core.Outcome {
 	} else {
 		prof := fullProfile(t, cfg.FlagCount)
 		prof.BadUTF8 = t.Chance(1, 10) // results are byte strings to the VM: some are not valid UTF-8
-		prof.SizeFlip = t.Chance(1, 6) // the same symbol as a paginated sink in one node and as a sized value in another
+		prof.SizeFlip = t.Chance(1, 3) // the same symbol as a paginated sink in one node and as a sized value in another
 		a = app.Generate(t, prof)
 		if err := a.Validate(); err != nil {
 			panic("generator produced ill-formed app: " + err.Error())
@@ -87,6 +93,9 @@ func runC07(c *core.Ctx) *core.Outcome {
 	}
 	nreq := t.Range(2, maxReq)
 	nreq += deep
+	if len(scripted) > 0 && nreq < len(scripted)+1 {
+		nreq = len(scripted) + 1
+	}
 	dbStack := t.Chance(1, 4)
 
 	wl := world.New(a, cfg)
@@ -125,6 +134,9 @@ func runC07(c *core.Ctx) *core.Outcome {
 				cur = p[len(p)-1]
 			}
 			in = genInput(t, a, cur, 2)
+			if i-1 < len(scripted) && !t.Chance(1, 6) {
+				in = scripted[i-1]
+			}
 			if i <= deep {
 				in = []byte("1")
 			} else if deep > 0 && string(in) == "1" {
